@@ -211,7 +211,8 @@ def run(ctx):
            'conformation_container (writers %s)' % sorted(writers), cc, aa)
     # L5: parameters before setup
     ig = cc.func('ConformationContainer.init_group')
-    seq = [norm(s) for s in ig.body[:3] if not isinstance(s, ast.Expr) or not isinstance(s.value, ast.Constant)]
+    from sa.astutil import effective
+    seq = [norm(s) for s in effective(ig.body)[:3]]
     setup_callers = [f for f in cg.callers_of(('group', 'Group.setup'))
                      if any(last_attr(c) == 'setup' for c in calls_in(cg.funcs[f], nested=False))]
     ig_group = ig.args.args[1].arg
